@@ -93,8 +93,16 @@ def wrapper_cases(chk, n_cases):
             w = SklearnWrapper(rec, feature_names=fnames)
         keys = names_all if use_names else names_all[:d]
 
-        def mk():
-            items = [(k, float(rng.randint(-4, 4))) for k in keys]
+        int_first = (i % 3 == 1)
+
+        def mk(row=[0]):
+            row[0] += 1
+            if int_first and row[0] == 1:
+                items = [(k, rng.randint(-4, 4)) for k in keys]                   # first row: Python ints only
+            elif int_first:
+                items = [(k, rng.randint(-8, 8) / 4) for k in keys]               # later rows: non-integral floats
+            else:
+                items = [(k, float(rng.randint(-4, 4))) for k in keys]
             if use_names:
                 rng.shuffle(items)
             return dict(items)
